@@ -158,7 +158,7 @@ func runConcurrent(seed int64, tier string) ([]*Scenario, []string) {
 		var wg sync.WaitGroup
 		startGate := make(chan struct{})
 		for t := 0; t < nThreads; t++ {
-			r := &Runner{vals: map[int][]float64{}, gvals: map[[2]int][]float64{}, rngSeed: rs, retained: map[int][]any{}}
+			r := &Runner{vals: map[int][]float64{}, gvals: map[[2]int][]float64{}, rngSeed: rs, retained: map[int][]any{}, layerCache: map[string]fwdLayer{}, lossCache: map[int]lossFn{}}
 			r.Cmds = append([]Cmd{}, prefix...)
 			r.Obs = append([]Obs{}, prefixObs...)
 			r.env = append([]obj{}, g0.env...)
